@@ -49,6 +49,10 @@ def add(a, b=0, c=0):
     return a + b + c
 
 
+def task_make_partial():
+    return functools.partial(add, 1, c=5)
+
+
 def task_identity(x):
     return x if not callable(x) or isinstance(x, tuple) else ("CALLED", x(1))
 
@@ -107,6 +111,8 @@ def main(repo, backend):
     with ProcessPoolExecutor(max_workers=1, job_reducers={functools.partial: partial_reducer}, result_reducers={}) as ex, ProcessPoolExecutor(max_workers=1) as plain:
         r = ex.submit(task_identity, p).result()
         check("job_reducer_not_applied", isinstance(r, tuple) and r[:2] == ("USER_PARTIAL", "u1"), "executor(job_reducers={functools.partial: user}): the task received %r" % (r,))
+        rr = ex.submit(task_make_partial).result()
+        check("job_reducer_applied_to_result", callable(rr) and rr(2) == 8, "executor(job_reducers={functools.partial: user}, result_reducers={}): an explicit empty mapping means no user reducer for results, but a partial RETURNED by a task came back as %r" % (rr,))
         r2 = plain.submit(task_identity, p).result()
         check("reducer_leaked_to_other_executor", r2 == ("CALLED", 7), "side-by-side executor without reducers: the task received %r" % (r2,))
         # ---- S2
